@@ -4,16 +4,21 @@ package c01
 import (
 	"bytes"
 	"context"
+	"crypto/tls"
 	"encoding/base64"
 	"fmt"
 	"io"
+	"net"
 	"net/http"
 	"sync"
 	"testing"
 	"time"
 
+	"github.com/IrineSistiana/mosdns/v5/pkg/upstream"
 	"github.com/IrineSistiana/mosdns/v5/pkg/upstream/doh"
 	"github.com/IrineSistiana/mosdns/v5/pkg/upstream/transport"
+	"github.com/IrineSistiana/mosdns/v5/pkg/utils"
+	"github.com/quic-go/quic-go"
 	"pgregory.net/rapid"
 
 	"verif/harness/fakenet"
@@ -34,7 +39,7 @@ type Act struct {
 }
 
 type Case struct {
-	Engine   string   `json:"engine"` // tdc | pipe | reuse | doh
+	Engine   string   `json:"engine"` // tdc | pipe | reuse | doh | doq (real quic upstream against a loopback quic-go server)
 	Datagram bool     `json:"datagram"`
 	IDs      []uint16 `json:"ids"` // caller IDs of the initial calls (collisions wanted)
 	Acts     []Act    `json:"acts"`
@@ -61,7 +66,7 @@ func genID(t *rapid.T, prev []uint16) uint16 {
 
 func genCase(t *rapid.T) Case {
 	var c Case
-	c.Engine = rapid.SampledFrom([]string{"tdc", "tdc", "pipe", "pipe", "reuse", "doh"}).Draw(t, "engine")
+	c.Engine = rapid.SampledFrom([]string{"tdc", "tdc", "pipe", "pipe", "reuse", "doh", "doq"}).Draw(t, "engine")
 	if c.Engine == "tdc" || c.Engine == "pipe" {
 		c.Datagram = rapid.Bool().Draw(t, "datagram")
 	}
@@ -81,7 +86,10 @@ func genCase(t *rapid.T) Case {
 		k := rapid.SampledFrom([]string{"deliver", "deliver", "deliver", "deliver", "dup", "stray", "cancel", "late", "start", "start", "dupnow", "racecancel"}).Draw(t, "k")
 		c.Acts = append(c.Acts, Act{K: k, J: rapid.IntRange(0, 255).Draw(t, "j")})
 	}
-	if !c.Datagram && c.Engine != "doh" {
+	if c.Engine == "doq" && len(c.IDs) > 12 {
+		c.IDs = c.IDs[:12]
+	}
+	if !c.Datagram && c.Engine != "doh" && c.Engine != "doq" {
 		c.Chunks = rapid.SampledFrom([][]int{nil, nil, {1}, {2, 1 << 20}, {3, 5, 700}}).Draw(t, "chunks")
 	}
 	return c
@@ -133,6 +141,84 @@ func (rt *dohRT) RoundTrip(req *http.Request) (*http.Response, error) {
 	}
 }
 
+// ---------------------------------------------------------------- DoQ loopback server (scripted)
+
+type doqSrv struct {
+	ln   *quic.Listener
+	port int
+	rt   *dohRT // same bookkeeping: pending[qname] <- reply bytes, arrived[qname] = query
+}
+
+var (
+	doqOnce sync.Once
+	doq     *doqSrv
+	doqErr  error
+)
+
+func getDoq() (*doqSrv, error) {
+	doqOnce.Do(func() {
+		cert, err := utils.GenerateCertificate("c01.test")
+		if err != nil {
+			doqErr = err
+			return
+		}
+		ln, err := quic.ListenAddr("127.0.0.1:0", &tls.Config{Certificates: []tls.Certificate{cert}, NextProtos: []string{"doq"}}, &quic.Config{MaxIncomingStreams: 1000})
+		if err != nil {
+			doqErr = err
+			return
+		}
+		d := &doqSrv{ln: ln, port: ln.Addr().(*net.UDPAddr).Port}
+		doq = d
+		go func() {
+			for {
+				conn, err := ln.Accept(context.Background())
+				if err != nil {
+					return
+				}
+				go func() {
+					for {
+						st, err := conn.AcceptStream(context.Background())
+						if err != nil {
+							return
+						}
+						go d.serveStream(st)
+					}
+				}()
+			}
+		}()
+	})
+	return doq, doqErr
+}
+
+func (d *doqSrv) serveStream(st quic.Stream) {
+	hdr := make([]byte, 2)
+	if _, err := io.ReadFull(st, hdr); err != nil {
+		return
+	}
+	q := make([]byte, int(hdr[0])<<8|int(hdr[1]))
+	if _, err := io.ReadFull(st, q); err != nil {
+		return
+	}
+	rt := d.rt
+	if rt == nil {
+		return
+	}
+	name := peer.QName(q)
+	ch := make(chan []byte, 1)
+	rt.mu.Lock()
+	rt.pending[name] = ch
+	rt.arrived[name] = q
+	rt.mu.Unlock()
+	select {
+	case body := <-ch:
+		fr := []byte{byte(len(body) >> 8), byte(len(body))}
+		st.Write(append(fr, body...))
+		st.Close()
+	case <-time.After(20 * time.Second):
+		st.CancelWrite(0)
+	}
+}
+
 // ---------------------------------------------------------------- runner
 
 func runCase(c Case, ctx *hx.Ctx) *hx.Failure {
@@ -143,6 +229,19 @@ func runCase(c Case, ctx *hx.Ctx) *hx.Failure {
 	env := tx.NewEnv(c.Datagram)
 	env.OnDial = func(cn int, fc *fakenet.Conn) error { w.Install(cn, fc); return nil }
 	switch c.Engine {
+	case "doq":
+		d, err := getDoq()
+		if err != nil {
+			ctx.Class("skipped:no-quic-listener")
+			return nil
+		}
+		rt = &dohRT{book: w.Book, pending: map[string]chan []byte{}, arrived: map[string][]byte{}}
+		d.rt = rt
+		u, err := upstream.NewUpstream(fmt.Sprintf("quic://127.0.0.1:%d", d.port), upstream.Opt{TLSConfig: &tls.Config{InsecureSkipVerify: true}})
+		if err != nil {
+			return hx.Failf("C01/harness", "quic upstream: %v", err)
+		}
+		eng = upEngine{u}
 	case "doh":
 		rt = &dohRT{book: w.Book, pending: map[string]chan []byte{}, arrived: map[string][]byte{}}
 		u, err := doh.NewUpstream("https://doh.c01.test/dns-query", rt, nil)
@@ -529,6 +628,13 @@ func genIDFrom(j int, ids []uint16) uint16 {
 	}
 	return uint16(j * 131)
 }
+
+type upEngine struct{ u upstream.Upstream }
+
+func (e upEngine) Exchange(ctx context.Context, q []byte) (*[]byte, error) {
+	return e.u.ExchangeContext(ctx, q)
+}
+func (e upEngine) Close() error { return e.u.Close() }
 
 type dohEngine struct{ u *doh.Upstream }
 
